@@ -449,6 +449,8 @@ def signature(prog, k, st, o, kind):
     op = prog["ops"][k - 1] if k > 0 else ("createDataFrame", prog["names"])
     m = op[0]
     if kind == "receiver":
+        if m in ("select", "withColumn", "withColumnRenamed", "agg"):      # the methods that record on `self`
+            return "C10/receiver-respelled-by-recording-method"
         return f"C10/receiver-respelled-by-{m}"
     if kind == "raises":
         err = (o.get("error") or "?").split(":")[0]
@@ -458,6 +460,8 @@ def signature(prog, k, st, o, kind):
             return "C10/orderBy-nonascii-alias-in-same-select-raises"
         if m == "join" and err == "ValueError" and any(needs_ticks(v) for v in op[2]):
             return "C10/join-key-needing-quotes-raises"
+        if _ticked_plain_before(prog, k):
+            return "C10/backticked-plain-name-quoted-item"
         return f"C10/raises:{m}:{err}"
     # names: which views deviate from Spark's names
     bad = [v for v in VIEWS if not st["s_" + v]]
@@ -477,9 +481,25 @@ def signature(prog, k, st, o, kind):
         ks = [key(attr(a[2] if a[0] == "alias" else a[1])) for a in op[1]]
         if len(set(ks)) != len(ks):
             return "C10/select-same-column-twice"
-        if any(a[0] == "col" and _is_ticked(a[1]) and not needs_ticks(attr(a[1])) for a in op[1]) and bad == ["schema"]:
-            return "C10/backticked-plain-name-schema-stale"
+    if _ticked_plain_before(prog, k):
+        # `x` around a name that needs no quoting builds a QUOTED select item keyed '`x`': schema looks up 'x' (stale), and
+        # later bare references (withColumn / withColumnRenamed / drop) do not find the column
+        return "C10/backticked-plain-name-quoted-item"
     return f"C10/{m}:" + "+".join(bad)
+
+
+def _ticked_plain_before(prog, k):
+    for op in prog["ops"][:k]:
+        refs = []
+        if op[0] in ("select", "groupAgg"):
+            refs = [a[1] for a in op[1]]
+        elif op[0] in ("where", "withColumnRenamed"):
+            refs = [op[1]]
+        elif op[0] == "orderBy":
+            refs = list(op[1])
+        if any(_is_ticked(x) and not needs_ticks(attr(x)) for x in refs):
+            return True
+    return False
 
 
 def well_formed(prog):
@@ -601,7 +621,7 @@ def run(ctx: core.Ctx):
     recs = load_recordings()
     quick = ctx.tier == "quick"
     n_rec = 110 if quick else len(recs)
-    n_rand = 150 if quick else 2600
+    n_rand = 150 if quick else 1500
     n_digit = 14 if quick else 200
     progs = [("corpus", p) for p in CORPUS]
     progs += [("recorded", {"names": r["names"], "ops": r["ops"]}) for r in recs[len(CORPUS):len(CORPUS) + n_rec]]
@@ -724,6 +744,7 @@ def run(ctx: core.Ctx):
                    f"{badrec[0]['program']} -> {badrec[0]['pyspark']}", data=badrec[:5])
     if not recs:
         ctx.broken("spec-conformance", "oracle/c10_pyspark.jsonl is missing")
+    n_exotic = run_exotic(ctx, session, F)
 
     ctx.coverage.update({
         "evaluations": n_eval, "distinct_nontrivial": n_nontriv, "programs": len(progs),
@@ -734,7 +755,7 @@ def run(ctx: core.Ctx):
         "histogram_operation": hist_op, "histogram_name_category": hist_cat, "histogram_program_length": hist_len,
         "histogram_source": hist_tag, "in_domain_names_theorem": n_td, "in_domain_views_theorem": n_tc,
         "model_disagrees_on_a_deviating_step": n_model_dev, "deviating_steps_by_signature": sig_count,
-        "pyspark_recorded_steps_checked": n_rs, "pyspark_recorded_steps_disagree": n_rbad,
+        "exotic_name_programs_vs_pyspark": n_exotic, "pyspark_recorded_steps_checked": n_rs, "pyspark_recorded_steps_disagree": n_rbad,
     })
     ctx.assumptions += [
         "C10.Names.qspark/qduck/qsafe/unbt and Model.kw_orderby are my definitions of sqlglot 26.14's identifier parsing, quoting "
